@@ -141,6 +141,27 @@ def finish(runner, kind, meta=None):
     return RunRecord(runner, kind, meta)
 
 
+def victim_hints(runner, victim):
+    ''' Transfer ids and lengths taken from the victim's own state, for
+    adversarial frames that are "almost right". '''
+    hdl = runner.sysm.ep[victim].h
+    ids = [0, 9]
+    lengths = [0, 1, 2, 2 ** 64 - 1]
+    for (bid, item) in list(hdl._tx_map.items()):
+        ids.append(int(bid))
+        try:
+            size = len(item.file.getvalue())
+            lengths += [size, max(size - 1, 0)]
+        except Exception:
+            pass
+    if hdl._tx_length:
+        lengths.append(int(hdl._tx_length))
+    if hdl._rx_tmp is not None:
+        ids.append(int(hdl._rx_tmp.transfer_id))
+    ids += [max(ids) + 1]
+    return (tuple(ids), tuple(lengths))
+
+
 # ---------------------------------------------------------------------------
 # Generators (every random choice from the given rng)
 # ---------------------------------------------------------------------------
@@ -181,8 +202,10 @@ def gen_coop(rng, nops=120, with_term=False, with_pop=True, timers=False, full_i
     return runner
 
 
-def well_formed_frame(rng, ids=(0, 1, 2, 3, 9)):
-    ''' A syntactically valid frame chosen without regard to session state. '''
+def well_formed_frame(rng, ids=(0, 1, 2, 3, 9), lengths=(0, 1, 2, 4, 100)):
+    ''' A syntactically valid frame chosen adversarially: ``ids`` and
+    ``lengths`` may be taken from the victim's own transfer state (ids of its
+    queued / in-flight transfers, their total and sent lengths). '''
     kind = rng.randrange(9)
     if kind == 0:
         return b'dtn!\x04' + bytes([rng.choice([0, 1])])
@@ -206,7 +229,7 @@ def well_formed_frame(rng, ids=(0, 1, 2, 3, 9)):
                 ext = struct.pack('!I', 0)
         return bytes([1, flags]) + struct.pack('!Q', rng.choice(ids)) + ext + struct.pack('!Q', len(data)) + data
     if kind == 6:
-        return bytes([2, rng.choice([0, 1, 2, 3])]) + struct.pack('!QQ', rng.choice(ids), rng.choice([0, 1, 2, 4, 100]))
+        return bytes([2, rng.choice([0, 1, 2, 3])]) + struct.pack('!QQ', rng.choice(ids), rng.choice(lengths))
     if kind == 7:
         return bytes([3, rng.randrange(6)]) + struct.pack('!Q', rng.choice(ids))
     return b'xxxx\x04\x00' if rng.random() < 0.5 else b'dtn!\x03\x00'
@@ -274,6 +297,7 @@ def correspondence(chk, records, name='sess', chunk=6):
     ''' Evaluate the model on every endpoint's op list and compare.
     :return: list of (record, endpoint, difference) '''
     terms = []
+    records = [rec for rec in records if not rec.meta.get('no_model')]
     for rec in records:
         for e in 'AB':
             terms.append(rec.runner.model_term(e))
@@ -577,7 +601,13 @@ def oracle_c18(rec):
         if len(set(rfin)) == len(rfin) and sorted(rec.snap[e]['rx_queue']) != sorted(set(want_rx)):
             fails.append(('C18 / receive queue differs from finished-and-not-popped',
                           '%s queue %s expected %s' % (e, rec.snap[e]['rx_queue'], want_rx)))
-        # idle indication sound
+        # idle indication sound after EVERY operation (per-op snapshots, layout of render_state)
+        for (idx, st) in enumerate(rec.runner.snaps[e]):
+            if st[14] == [1] and st[0][4] == 0:
+                if st[1][0] != 0 or st[8] or st[12] != [0] or st[13] != [0] or st[10] or st[11]:
+                    fails.append(('C18 / idle indication true while work is pending',
+                                  '%s after op #%d: rx_buf %d octets, send queue %s' % (e, idx, st[1][0], st[8])))
+                    break
         snap = rec.snap[e]
         if snap['idle'] and not snap['closed']:
             if snap['tx_queue'] or snap['rx_buf'] or snap['tx_tmp'] is not None or snap['rx_tmp'] is not None:
@@ -604,7 +634,7 @@ ASSUMPTIONS = ['stub dbus/GLib (harness/stubs) stand in for dbus-python and GLib
                'TLS off; enable_test empty; segment-size modulation off (modelled rather than verified: see DESIGN.md section 8)']
 
 
-def run_check(prop_id, build, evaluate, rule, rebuild_record=None):
+def run_check(prop_id, build, evaluate, rule, rebuild_record=None, extra_props=('Props/TcpclTie.v',)):
     ''' Standard shape of a TCPCL property check:
     proofs -> schedules on the real code -> model correspondence -> oracle. '''
     import json
@@ -622,6 +652,12 @@ def run_check(prop_id, build, evaluate, rule, rebuild_record=None):
     else:
         recs = build(chk)
     chk.coq_props()
+    (tok, terr) = chk.translate_ok('sessparams')
+    chk.obligation('translator:sessparams (negotiation, clamp, idle predicates, close-when-terminating regenerated from tcpcl/session.py)', tok, terr)
+    (tok, terr) = chk.translate_ok('dbussigs')
+    chk.obligation('translator:dbussigs (declared D-Bus signatures regenerated from the decorators)', tok, terr)
+    for rel in extra_props:
+        chk.coq_props_extra(rel)
     try:
         (ret, out) = chk.coq_make(['Model/TcpclSess.vo'])
         if ret != 0:
